@@ -39,7 +39,7 @@ ASSUMPTIONS = [
 BOUNDS = {
     "quick": "every index column over {a,b,c} (up to renaming) with 0..3 rows plus three 4-row tables, and four tables derived as t0 + u after name lookups on t0; every selector of the generated family (positions, lists, all masks, 14 regex forms, name spans, 4 value-range forms with symbolic bounds); "
              "composition law for every pair (s1 any form, s2 from a 9-element subset); 5 tables whose names interact with the regular-expression semantics (case twins, names that match siblings when read as a pattern, regex-special characters) with every name / NAME / name::k / name>>1 as selector; value ranges over fixed-width numpy columns (10 dtypes, every column of 1..3 cells over a 3-4 value pool of type extremes and wrap-around values, plus 5-8 row sorted/unsorted/constant columns): symbolic bounds decided by z3, and every pair of concrete bounds from the pool",
-    "thorough": "0..5 rows, composition for all pairs",
+    "thorough": "0..5 rows; composition for all pairs of selectors on tables of <= 4 rows (5-row tables: every selector, rows.indices / rows.mask agreement, no composition); typed columns of 1..4 cells",
 }
 OUTSIDE = "tables with more than 5 rows (8 for the typed columns); user regular expressions beyond the generated family; float columns (reals) in ranges other than NaN cells, NaN bounds and the typed float32/float64 pools; typed cells outside the pools"
 REQUIRED_CLASSES = ["range_checked", "nan_cell", "regex_checked", "composition", "indices_mask", "keyerror", "empty_result", "typed_range_symbolic_bounds", "typed_range_concrete_bounds", "names_as_selectors"]
@@ -525,7 +525,7 @@ def cases(tier):
         nsel = 2 * n + 5 + (2 ** n if n else 0) + 3 + 20 + 9 + 8
         for s1 in range(nsel):
             out.append({"pattern": pat, "s1": s1, "s2list": S2_QUICK if tier == "quick" else None,
-                        "compose": n <= 3 or tier != "quick"})
+                        "compose": n <= 3 or (tier != "quick" and n <= 4)})
     # NaN cells in the range column
     for pat, nan in ((["a"], [0]), (["a", "b"], [1]), (["a", "b", "a"], [0]), (["a", "b", "a"], [1, 2]), (["a", "a", "b", "c"], [0, 3])):
         n = len(pat)
